@@ -59,6 +59,9 @@ def make_files(rng, d, kind, dirty=False):
             b = bytearray(r["seq"])
             for _ in range(rng.randint(1, 4)):
                 k = rng.random(); pos = rng.randrange(1, len(b) - 1)
+                if rng.random() < 0.25:
+                    pos = 0 if rng.random() < 0.6 else max(0, len(b) - rng.randint(1, 25))      # a record that BEGINS (or ends) with the run
+                    k = 0.5
                 if k < 0.4:
                     b[pos] = rng.choice(b"RYKMSWBDHVryk")             # isolated ambiguity code
                 elif k < 0.8:
